@@ -11,6 +11,8 @@ BODY_REWRITES = [
     ('let content_ref = here_doc . content . get ( ) ; let content = content_ref . map ( Cow :: Borrowed ) . unwrap_or_default ( ) ;',
      'let content = verif_here_doc_content(here_doc);'),
 ]
+# open file descriptions that existed before are not touched by an opener
+FRAME_FILES = "forall|id: int| (exists|fd2: Fd| old(env).system.table().contains_key(fd2) && #[trigger] old(env).system.table()[fd2].id == id) ==> final(env).system.how(id) == old(env).system.how(id) && final(env).system.regular(id) == old(env).system.regular(id)"
 UNIT = {
     'name': 'redir',
     'property': 'C09',
@@ -26,6 +28,10 @@ UNIT = {
         ('yash-env/src/io.rs', ['impl Fd']),
         ('yash-env/src/io.rs', ['const MIN_INTERNAL_FD']),
         ('yash-env/src/system/io.rs', ['enum FdFlag'], {'drop_derives': 'all'}),
+        ('yash-env/src/system/file_system.rs', ['enum OfdAccess'], {}),
+        ('yash-env/src/system/file_system.rs', ['enum OpenFlag'], {'drop_derive_names': ['Debug', 'Hash']}),
+        ('yash-env/src/option.rs', ['enum State'], {}),
+        ('@raw', 'pub use State::*;\n'),
         (SY, ['enum RedirOp'], {}),
         (SY, ['enum RedirBody'], {'drop_derives': 'all'}),
         (SY, ['impl RedirBody', 'fn operand'], {}),
@@ -49,6 +55,63 @@ UNIT = {
             ]}),
         (RD, ['fn is_cloexec'], {'ret': 'r',
             'ensures': ['r == (env.system.table().contains_key(fd) && env.system.table()[fd].cloexec)']}),
+        (RD, ['const MODE'], {'attrs': ['#[verifier::external_body]']}),
+        (RD, ['fn into_c_string_value_and_origin'], {'ret': 'r'}),
+        (RD, ['fn open_file'], {'ret': 'r', 'rewrites': ['strip-async'],
+            'ensures': [
+                # one new descriptor, opened exactly as asked, or nothing at all
+                'r matches Ok(p) ==> (p.0 matches FdSpec::Owned(fd) && opened(old(env).system.table(), final(env).system.table(), p.0) && final(env).system.how(final(env).system.table()[fd].id) == (How { access, flags: flags_of(flags) }) && final(env).system.table()[fd].cloexec == flags_of(flags).contains(OpenFlag::CloseOnExec))',
+                'r is Err ==> final(env).system.table() == old(env).system.table()',
+                FRAME_FILES, 'same_failures(old(env).system, final(env).system)', 'final(env).options == old(env).options',
+            ]}),
+        (RD, ['fn open_file_noclobber'], {'ret': 'r', 'rewrites': ['strip-async'],
+            'token_rewrites': [('const FLAGS_EXCL : EnumSet < OpenFlag > = enum_set ! ( OpenFlag :: Create | OpenFlag :: Exclusive ) ;',
+                                'let FLAGS_EXCL: EnumSet<OpenFlag> = OpenFlag::Create | OpenFlag::Exclusive;')],
+            'closures': {0: {'ret': 'b: bool', 'param_types': ['FileStat'], 'ensures': ['b == stat.verif_regular']}},
+            'ensures': [
+                # noclobber: "refusal to overwrite an existing regular file" -- what is handed out was created by this very
+                # open, or is not a regular file; never truncated; and a refusal leaves nothing open
+                'r matches Ok(p) ==> (p.0 matches FdSpec::Owned(fd) && opened(old(env).system.table(), final(env).system.table(), p.0) && opens_as(RedirOp::FileOut, true, final(env).system.how(final(env).system.table()[fd].id), final(env).system.regular(final(env).system.table()[fd].id)))',
+                'r is Err && quiet(old(env).system) ==> final(env).system.table() =~= old(env).system.table()',
+                FRAME_FILES, 'same_failures(old(env).system, final(env).system)', 'final(env).options == old(env).options',
+            ]}),
+        (RD, ['fn copy_fd'], {'ret': 'r',
+            'token_rewrites': [('target . value == "-"', 'verif_is_hyphen(&target.value)'), ('target . value . parse ( )', 'verif_parse_fd(&target.value)')],
+            'nested': {
+                'is_fd_valid': {'ret': 'b', 'mut_params': [],
+                    'closures': {0: {'ret': 'c: bool', 'param_types': ['OfdAccess'], 'ensures': ['c == (access == expected_access || access == OfdAccess::ReadWrite)']}},
+                    'ensures': ['b == (system.table().contains_key(fd) && (system.how(system.table()[fd].id).access == expected_access || system.how(system.table()[fd].id).access == OfdAccess::ReadWrite))']},
+                'fd_mode_error': {'ret': 'e', 'attrs': ['#[verifier::external_body]'], 'ensures': ['e is Err']},
+            },
+            'ensures': [
+                # <& and >& only ever name an OPEN descriptor of the right access mode that the shell does not hold for itself
+                # (close-on-exec); nothing is opened or closed here
+                'final(env).system.table() == old(env).system.table()',
+                'r matches Ok(p) ==> (p.0 is Closed || (p.0 matches FdSpec::Borrowed(fd) && old(env).system.table().contains_key(fd) && !old(env).system.table()[fd].cloexec && (old(env).system.how(old(env).system.table()[fd].id).access == expected_access || old(env).system.how(old(env).system.table()[fd].id).access == OfdAccess::ReadWrite)))',
+                'same_files(old(env).system, final(env).system)', 'same_failures(old(env).system, final(env).system)', 'final(env).options == old(env).options',
+            ]}),
+        (RD, ['fn open_normal'], {'ret': 'r', 'rewrites': ['strip-async'],
+            'ensures': [
+                'r matches Ok(p) ==> opened(old(env).system.table(), final(env).system.table(), p.0)',
+                # XCU 2.7: each file operator opens with its access mode and flags; > under noclobber never truncates
+                'r matches Ok(p) ==> (p.0 matches FdSpec::Owned(fd) ==> is_file_op(operator) && opens_as(operator, old(env).options.noclobber(), final(env).system.how(final(env).system.table()[fd].id), final(env).system.regular(final(env).system.table()[fd].id)))',
+                'r matches Ok(p) ==> (is_file_op(operator) ==> p.0 is Owned)',
+                # <& duplicates a descriptor open for reading, >& one open for writing; neither ever opens anything
+                'r matches Ok(p) ==> (p.0 matches FdSpec::Borrowed(fd) ==> (operator is FdIn || operator is FdOut) && ({ let a = old(env).system.how(old(env).system.table()[fd].id).access; a == OfdAccess::ReadWrite || a == (if operator is FdIn { OfdAccess::ReadOnly } else { OfdAccess::WriteOnly }) }))',
+                'r matches Ok(p) ==> (p.0 is Closed ==> operator is FdIn || operator is FdOut)',
+                'r is Err && quiet(old(env).system) ==> final(env).system.table() =~= old(env).system.table()',
+                'operator is Pipe || operator is String ==> r is Err',
+                FRAME_FILES, 'same_failures(old(env).system, final(env).system)', 'final(env).options == old(env).options',
+            ]}),
+        ('@raw', 'pub mod here_doc {\n    use super::*;\n'),
+        ('yash-semantics/src/redir/here_doc.rs', ['fn open_fd'], {'ret': 'r', 'rewrites': ['strip-async'], 'vis': 'pub',
+            'token_rewrites': [('Path :: new ( "/tmp" )', 'verif_tmp_dir()')],
+            'ensures': [
+                'r matches Ok(fd) ==> opened(old(env).system.table(), final(env).system.table(), FdSpec::Owned(fd))',
+                'r is Err && quiet(old(env).system) ==> final(env).system.table() =~= old(env).system.table()',
+                FRAME_FILES, 'same_failures(old(env).system, final(env).system)', 'final(env).options == old(env).options',
+            ]}),
+        ('@raw', '}\n'),
         # the part of `perform` that opens the file and replaces the target (a function of its own since the repair of
         # finding F6; absent before it, and `perform` is then judged by its second annotation set)
         (RD, ['fn replace_target'], {'ret': 'r', 'rewrites': ['strip-async'], 'optional': True,
